@@ -43,6 +43,7 @@ let run (toks : string list) : string =
           pos := !pos @ [None];
           outs := Printf.sprintf "a%d=rm" ai :: !outs
         end else
+        let a = if String.length a > 0 && a.[0] = '@' then String.sub a 1 (String.length a - 1) else a in   (* encoded early: no effect on ids *)
         let (eid, svcs) = (match String.index_opt a ':' with
             | Some i -> (n_of_dec (String.sub a 0 i), String.sub a (i+1) (String.length a - i - 1))
             | None -> (n_of_dec a, "")) in
